@@ -610,6 +610,11 @@ bool Instance::configure_tx_txin() {
 
 uint256 Instance::calc_sighash() {
     uint256 hash;
+    if (tx->vin.size() != 1) {
+        // BIP341 digests commit to the outputs spent by all inputs; only the one in the input transaction is known
+        fprintf(stderr, "cannot generate the schnorr signature hash of a transaction with %zu inputs: only one spent output is known\n", tx->vin.size());
+        exit(1);
+    }
     std::vector<CTxOut> spent_outputs;
     spent_outputs.emplace_back(txin->vout[txin_vout_index]);
     txdata = PrecomputedTransactionData();
